@@ -284,9 +284,9 @@ def cases_for(max_n, budget, isd_iters, seed, max_L, max_L_2d, max_color):
 
 def run(ctx):
     if ctx.tier == 'quick':
-        cases = cases_for(130, 1500000, 20, ctx.seed, 5, 8, 2)
+        cases = cases_for(130, 1500000, 20, ctx.seed, 5, 8, 3)
     else:
-        cases = cases_for(320, 20000000, 300, ctx.seed, 6, 12, 3)
+        cases = cases_for(320, 20000000, 300, ctx.seed, 6, 12, 4)
     ctx.note('instances', len(cases))
     ctx.note('excluded_from_domain',
              'Color666ToricCode with L_x != L_y (logicals cannot be built) and HollowRhombicCode '
